@@ -167,6 +167,7 @@ var props = map[string]Prop{
 		Jobs: []Job{
 			{Name: "sema", Kind: "lift", Pkg: "./internal/lib/runtime", Run: "TestVerifC11", Lift: []LiftFile{{Src: "runtime/internal/lib/runtime/sema_llgo.go", Dst: "internal/lib/runtime/sema_llgo.go", DropLinkname: true}},
 				Checks: [2]int{60000, 2000000}, Shards: [2]int{8, 16}, Timeout: [2]time.Duration{10 * min, 60 * min}},
+			prog("litmus", "./harness/c11", "TestC11Litmus", 8, 80, 8, 16),
 		},
 	},
 	"C04": {
@@ -200,6 +201,7 @@ var props = map[string]Prop{
 		},
 		Jobs: []Job{
 			inj("layout", "ssa", "zz_verif_c08_test.go", "llvm14", "TestVerifC08Layout", 4000, 150000, 4, 16),
+			inj("mapdesc", "ssa", "zz_verif_c08_test.go", "llvm14", "TestVerifC08MapDescriptor", 1500, 40000, 2, 8),
 		},
 	},
 	"C01": {
@@ -223,6 +225,19 @@ var props = map[string]Prop{
 		},
 		Jobs: []Job{
 			prog("programs", "./harness/c14", "TestC14Programs", 2, 60, 8, 16),
+		},
+	},
+	"C15": {
+		ID: "C15", Level: "exploration",
+		Rule: "rapid generates a pool of 8-22 named types in two packages (named basics, structs with tags / unexported / embedded value and pointer fields, generic structs and instances, named interfaces, named composites, a recursive struct; 0-3 methods each on value and pointer receivers incl. String/Error/GoString) plus 4-10 unnamed composites, 1-3 values per type; the generated program walks every type with reflect, exercises the values and formats them with ~40 fmt verb/flag combinations, in one of three modes (full walker / constant MethodByName only / formatting only); gc's output of the same program is the oracle, compared line by line per type. A case is one (type, mode); non-trivial = the type has at least two of {embedded field, embedded pointer, embedded generic instance, pointer-receiver method, value-receiver method, fmt interface method, tag, unexported field, generic instance, recursion, named composite}.",
+		Assumptions: []string{
+			"gc (go1.24) running the same program is the reference for reflect and fmt",
+			"documented difference excluded by construction: sizes/offsets of types containing func values, anything that prints an address (non-nil nested pointers, chans, funcs)",
+			"type arguments spelled byte/rune are not generated (C07 listed finding)",
+			"O0 only (programs importing fmt/reflect cannot be optimised by LLVM 14 here)",
+		},
+		Jobs: []Job{
+			prog("programs", "./harness/c15", "TestC15Programs", 2, 30, 8, 16),
 		},
 	},
 	"C09": {
